@@ -208,7 +208,7 @@ MUTANTS += [
  dict(id='C14-expiry-not-checked', props=['C14'], expect='R-SESSION-LIFE/expiry/lookup',
       edits=[(SESS, '\tif !session.ExpiresAt.IsZero() && time.Now().After(session.ExpiresAt) {\n\t\tdelete(s.sessions, sessionID)\n\t\tdelete(s.byCode, code)\n\t\treturn Session{}, false\n\t}\n', '')]),
  dict(id='C14-host-cleanup-dropped', props=['C14'], expect='R-SESSION-LIFE/host-cleanup/',
-      edits=[(SRV, '\t\t\texpiry.cancel(sess.ID)\n\t\t\tstore.Delete(sess.ID)\n', '\t\t\texpiry.cancel(sess.ID)\n')]),
+      edits=[(SRV, '\t\t\t\tstore.Delete(sess.ID)\n\t\t\t\tsessionEnded = true\n', '\t\t\t\tsessionEnded = true\n')]),
  dict(id='C14-connlimiter-split', props=['C14'], expect='R-CHECK-ACT/atomic/connLimiter.inUse/cmd/thruserv.(*connLimiter).Acquire',
       edits=[(SRV, '\tl.mu.Lock()\n\tdefer l.mu.Unlock()\n\tif l.limit > 0 && l.inUse >= l.limit {\n\t\treturn false\n\t}\n\tl.inUse++\n\treturn true', '\tl.mu.Lock()\n\tfull := l.limit > 0 && l.inUse >= l.limit\n\tl.mu.Unlock()\n\tif full {\n\t\treturn false\n\t}\n\tl.mu.Lock()\n\tl.inUse++\n\tl.mu.Unlock()\n\treturn true')]),
  dict(id='C14-size-check-after-routing', props=['C14'], expect='R-SESSION-LIFE/pre-route/',
@@ -506,7 +506,7 @@ MUTANTS += [
  dict(id='R2-verify-loop-benign-continue-empty-id', props=['C07'], expect='SILENT',
       edits=[(MP, '\t\tif item.ID != "" {\n\t\t\tif err := validateFilename(item.ID); err != nil {\n\t\t\t\treturn fmt.Errorf("invalid manifest item id %q: %w", item.ID, err)\n\t\t\t}\n\t\t}', '\t\tif item.ID == "" {\n\t\t\tcontinue\n\t\t}\n\t\tif err := validateFilename(item.ID); err != nil {\n\t\t\treturn fmt.Errorf("invalid manifest item id %q: %w", item.ID, err)\n\t\t}')]),
  dict(id='R2-cleanup-benign-nested-tests', props=['C14'], expect='SILENT',
-      edits=[(TS, '\t\tif role == "sender" && !senderStillConnected {\n\t\t\tfmt.Fprintf(termio.Stdout(), "session deleted session_id=%s join_code=%s\\n", sess.ID, sess.JoinCode)\n\t\t\texpiry.cancel(sess.ID)\n\t\t\tstore.Delete(sess.ID)\n\t\t}', '\t\tif role == "sender" {\n\t\t\tif !senderStillConnected {\n\t\t\t\tfmt.Fprintf(termio.Stdout(), "session deleted session_id=%s join_code=%s\\n", sess.ID, sess.JoinCode)\n\t\t\t\texpiry.cancel(sess.ID)\n\t\t\t\tstore.Delete(sess.ID)\n\t\t\t}\n\t\t}')]),
+      edits=[(TS, '\t\t\tif role == "sender" && !senderStillConnected {\n\t\t\t\tstore.Delete(sess.ID)\n\t\t\t\tsessionEnded = true\n\t\t\t}\n', '\t\t\tif role == "sender" {\n\t\t\t\tif !senderStillConnected {\n\t\t\t\t\tstore.Delete(sess.ID)\n\t\t\t\t\tsessionEnded = true\n\t\t\t\t}\n\t\t\t}\n')]),
  dict(id='R2-atomic-read-tmp-open', props=['C05'], expect='R-ATOMIC-REPLACE/sidecar-read/',
       edits=[(SC, '\tsc, err := LoadSidecar(path)\n\tif err == nil {\n\t\tif sc.ChunkSize != chunkSize', '\tsc, err := LoadSidecar(path)\n\tif err != nil {\n\t\tsc, err = LoadSidecar(path + ".bak")\n\t}\n\tif err == nil {\n\t\tif sc.ChunkSize != chunkSize')]),
 ]
@@ -570,7 +570,7 @@ MUTANTS += [
  dict(id='F26-undo-peerleft-always', props=['C14'], expect='R-SESSION-LIFE/host-cleanup/peer-left-only-when-gone',
       edits=[(TS, '\t\tif peerStillConnected {\n\t\t\treturn\n\t\t}\n', '\t\tif peerStillConnected && role == "" {\n\t\t\treturn\n\t\t}\n')]),
  dict(id='F26-hub-asked-before-own-removal', props=['C14'], expect='R-SESSION-LIFE/host-cleanup/',
-      edits=[(TS, '\tdefer func() {\n\t\tremovePeer()\n\t\tpeerStillConnected, senderStillConnected := false, false', '\tdefer removePeer()\n\tdefer func() {\n\t\tpeerStillConnected, senderStillConnected := false, false')]),
+      edits=[(TS, '\tdefer func() {\n\t\tremovePeer()\n', '\tdefer removePeer()\n\tdefer func() {\n')]),
  dict(id='F26-undo-replaced-not-closed', props=['C10', 'C11'], expect='R-REPLACED-CLOSED/replaced-closed/AddIf',
       edits=[(HUBF, '\t\treplaced.closeConn()\n', '\t\t_ = replaced\n')]),
 ]
